@@ -16,7 +16,7 @@ def rho_for(base, k):
 
 class C16(Prop):
     layouts = True
-    translators = ['elicitor', 'bsearch', 'elicitvoting', 'thrrules', 'distortion', 'm2q']   # Elicitor.__init__ / Elicitor.elicit and the binary_search functions regenerated from the source on every run
+    translators = ['elicitor', 'bsearch', 'elicitvoting', 'thrrules', 'distortion', 'm2q', 'elicitclasses']   # Elicitor.__init__ / Elicitor.elicit and the binary_search functions regenerated from the source on every run
     pid = "C16"
     sources = ["socialchoicekit/elicitation_voting.py", "socialchoicekit/elicitation_allocation.py", "socialchoicekit/distortion.py", "socialchoicekit/deterministic_allocation.py"]
     groups = {"karv": Group("karv", REQ, "DistCheck.karv_hyp_case", "DistCheck.chk_karv_hyp"),
